@@ -1486,6 +1486,9 @@ class SpaceManager(SharedSpaceOperations):
                 raise ValueError("Cannot create reference '%s'" % name)
 
         self._check_subs_relrefs(space, name, value, refmode)
+        if name in self.model.global_refs:
+            # The new reference shadows the global reference of the same name
+            self.model.clear_attr_referrers(self.model.global_refs[name])
         result = space.on_create_ref(name, value, is_derived=False,
                             refmode=refmode)
 
